@@ -200,6 +200,84 @@ theorem fb_feasible_counterexample :
 example : (maxminSolve d2Sys 0 4 (fun _ => 0)).map (fun st => (st.value 0, st.value 1)) = some (1, 10) := by
   decide +kernel
 
+/-! ### eps > 0: the precision tests can drop a constraint that still has consumers -/
+
+/-
+Full-strength statement planned in DESIGN §8 — FALSE on the current code:
+  theorem maxmin_feasible_eps (S) (hwf : WF S) (eps) (h0 : 0 ≤ eps) (val0 fuel st)
+      (h : maxminSolve S eps fuel val0 = some st) :
+      ∀ c ∈ S.active, (S.cnst c).fatpipe = false → load S st.value c ≤ (S.cnst c).bound + eps * initUsage S c
+(DESIGN argued "`double_update` only clamps down, so it never hurts".)  It does hurt: when `double_update` clamps
+`usage_` (below `eps`) or `remaining_` (below `bound·eps`) to 0 the constraint is taken out of `cnst_light_tab` although
+some of its consumers are not fixed yet; these consumers are then only limited by their *other* constraints, and the
+load of the dropped constraint is bounded by no function of `eps` and its own data.  `maxmin_feasible_eps_counterexample`
+below; replayed on the real library (corpus case `epsA`, finding `maxmin-precision-drops-constraint`).
+What does hold for every `eps ≥ 0` is in Lmm/Eps.lean (`maxmin_var_bounds_eps`, when present) and, at `eps = 0`,
+`maxmin_feasible`.
+-/
+
+/-- c0: SHARED capacity 1, consumers v0 (w 1) and v1 (w 2⁻¹⁸ < eps); c1: capacity 1/2, consumer v0; c2: capacity 2³⁰,
+consumer v1 (w 1).  Penalties 1, no variable bound.  (`enabled_element_set_` orders as dumped by the harness.) -/
+def epsSys : Sys :=
+  { cnst := fun c => if c = 0 then { bound := 1, fatpipe := false, elems := [(1, 1/262144), (0, 1)] }
+                     else if c = 1 then { bound := 1/2, fatpipe := false, elems := [(0, 1)] }
+                     else if c = 2 then { bound := 1073741824, fatpipe := false, elems := [(1, 1)] }
+                     else { bound := 0, fatpipe := false, elems := [] },
+    var := fun v => if v = 0 then { penalty := 1, bound := -1, cnsts := [(0, 1), (1, 1)] }
+                    else if v = 1 then { penalty := 1, bound := -1, cnsts := [(0, 1/262144), (2, 1)] }
+                    else { penalty := 0, bound := -1, cnsts := [] },
+    active := [0, 1, 2], vorder := [1, 0] }
+
+theorem epsSys_wf : WF epsSys := by
+  constructor
+  · decide
+  · intro c hc; simp [epsSys] at hc; rcases hc with rfl | rfl | rfl <;> simp [epsSys]
+  · intro c hc e he; simp [epsSys] at hc
+    rcases hc with rfl | rfl | rfl <;> simp [epsSys] at he
+    · rcases he with rfl | rfl <;> simp [epsSys]
+    · subst he; simp [epsSys]
+    · subst he; simp [epsSys]
+  · intro c hc e he; simp [epsSys] at hc
+    rcases hc with rfl | rfl | rfl <;> simp [epsSys] at he
+    · rcases he with rfl | rfl <;> norm_num
+    · subst he; norm_num
+    · subst he; norm_num
+  · intro v e he
+    by_cases h0 : v = 0
+    · subst h0; simp [epsSys] at he; rcases he with rfl | rfl <;> norm_num
+    · by_cases h1 : v = 1
+      · subst h1; simp [epsSys] at he; rcases he with rfl | rfl <;> norm_num
+      · simp [epsSys, h0, h1] at he
+  · intro c hc v hp
+    simp [epsSys] at hc
+    by_cases h0 : v = 0
+    · subst h0; rcases hc with rfl | rfl | rfl <;> simp [epsSys, wOf, sumBy]
+    · by_cases h1 : v = 1
+      · subst h1; rcases hc with rfl | rfl | rfl <;> simp [epsSys, wOf, sumBy]
+      · simp [epsSys, h0, h1] at hp
+
+/-- **counterexample to feasibility "up to the configured precision"** (kernel evaluation of the model at the default
+`precision/work-amount` 10⁻⁵ on a well-formed system): c1 fixes v0 = 1/2; `double_update` then clamps `usage_` of c0
+(2⁻¹⁸ < 10⁻⁵) to 0 and c0 leaves the light table with v1 unfixed; v1 gets 2³⁰ from c2: the load of c0 is 4096.5 for a
+capacity of 1.  At `eps = 0` the same system gets v1 = 2¹⁷ and load exactly 1 (`maxmin_feasible`). -/
+theorem maxmin_feasible_eps_counterexample :
+    ∃ st, maxminSolve epsSys (1 / 100000) 5 (fun _ => 0) = some st ∧ st.value 0 = 1 / 2 ∧ st.value 1 = 1073741824 ∧
+      4096 * (epsSys.cnst 0).bound < load epsSys st.value 0 := by
+  have h : (maxminSolve epsSys (1 / 100000) 5 (fun _ => 0)).map
+      (fun st => (st.value 0, st.value 1, load epsSys st.value 0)) = some (1 / 2, 1073741824, 8193 / 2) := by
+    decide +kernel
+  cases hs : maxminSolve epsSys (1 / 100000) 5 (fun _ => 0) with
+  | none => rw [hs] at h; simp at h
+  | some st =>
+    rw [hs] at h; simp at h
+    refine ⟨st, rfl, by rw [h.1]; norm_num, h.2.1, ?_⟩
+    rw [h.2.2]; simp [epsSys]; norm_num
+
+/-- the same system in exact arithmetic: v1 = 2¹⁷, load of c0 = 1 -/
+example : (maxminSolve epsSys 0 5 (fun _ => 0)).map
+    (fun st => (st.value 0, st.value 1, load epsSys st.value 0)) = some (1 / 2, 131072, 1) := by
+  decide +kernel
+
 /-! ### BMF: the acceptance predicate implies the property (Eigen's fixed point is not modelled) -/
 
 /-- `bmfAccept` (the monitor applied to every BMF answer) is, by definition, capacity/bounds feasibility together with
